@@ -96,17 +96,25 @@ Proof.
   intros. unfold dval. rewrite (Qpower_plus _ x e ten_nz). ring.
 Qed.
 
+Lemma same_val_shift : forall a ea b eb x, same_val a ea b eb -> same_val a (x + ea) b (x + eb).
+Proof.
+  unfold same_val. intros a ea b eb x H. rewrite Z.add_min_distr_l.
+  replace (x + ea - (x + Z.min ea eb)) with (ea - Z.min ea eb) by lia.
+  replace (x + eb - (x + Z.min ea eb)) with (eb - Z.min ea eb) by lia. exact H.
+Qed.
+
 Theorem exp_layout_value : forall k g sign prec, 1 <= k < 10 ^ 17 -> 0 <= prec -> -1000 <= g <= 1000 ->
   let X := g + decimalLength17 k - 1 in
   exists N E,
     parse_number (to_chars_fixed k (1 - decimalLength17 k) sign prec ++ exp_suffix X) = Some (NVdec (sign && negb (N =? 0)) N E) /\ 0 <= N /\
     (decimalLength17 k - 1 <= prec -> (dval N E == dval k g)%Q) /\
-    (Qabs (dval N E - dval k g) <= (1 # 2) * (10 # 1) ^ (X - prec))%Q.
+    (Qabs (dval N E - dval k g) <= (1 # 2) * (10 # 1) ^ (X - prec))%Q /\
+    g <= E <= X /\ (decimalLength17 k - 1 <= prec -> same_val N E k g).
 Proof.
   intros k g sign prec Hk Hp Hg X.
   pose proof (decimalLength17_declen k ltac:(lia)) as Hol. pose proof (declen_17 k ltac:(lia)) as H17.
   destruct (declen_spec k (small_17 k ltac:(lia))) as (D1 & _).
-  destruct (fixed_parts_spec k (1 - decimalLength17 k) prec Hk Hp) as (Hok & V1 & _ & V3).
+  destruct (fixed_parts_spec k (1 - decimalLength17 k) prec Hk Hp) as (Hok & V1 & _ & V3 & V4 & V5).
   set (p := fixed_parts k (1 - decimalLength17 k) prec) in *.
   assert (small (Z.abs X)) as Hs.
   { split; [lia|]. apply (Z.lt_le_trans _ (10 ^ 4)); [unfold X; pow_norm; lia | apply pow10_le; lia]. }
@@ -115,14 +123,53 @@ Proof.
   split; [reflexivity|]. split; [apply parts_N_zero; assumption|].
   assert (dval k g == dval k (1 - decimalLength17 k) * (10 # 1) ^ X)%Q as Ekg.
   { rewrite <- dval_exp_shift. replace (X + (1 - decimalLength17 k)) with g by (unfold X; lia). reflexivity. }
+  split; [intros Hprec; rewrite dval_exp_shift, Ekg; rewrite V1 by lia; reflexivity|].
   split.
-  - intros Hprec. rewrite dval_exp_shift, Ekg. rewrite V1 by lia. reflexivity.
   - rewrite dval_exp_shift, Ekg.
     setoid_replace (dval (parts_N p) (parts_E p) * (10 # 1) ^ X - dval k (1 - decimalLength17 k) * (10 # 1) ^ X)%Q
       with ((dval (parts_N p) (parts_E p) - dval k (1 - decimalLength17 k)) * (10 # 1) ^ X)%Q by ring.
     rewrite Qabs_Qmult. rewrite (Qabs_pos ((10 # 1) ^ X)) by (apply Qlt_le_weak, ten_pow_pos).
     replace (X - prec) with (- prec + X) by lia. rewrite (Qpower_plus _ (- prec) X ten_nz). rewrite Qmult_assoc.
     apply Qmult_le_compat_r; [exact V3 | apply Qlt_le_weak, ten_pow_pos].
+  - split; [unfold X in *; lia|]. intros Hprec.
+    pose proof (same_val_shift _ _ _ _ X (V5 ltac:(lia))) as Hsv.
+    replace (X + (1 - decimalLength17 k)) with g in Hsv by (unfold X; lia). exact Hsv.
+Qed.
+
+(* membership in the interval only depends on the value of the decimal *)
+Lemma in_interval_norm : forall accept A B D n e K, 0 < D -> K <= e -> K <= 0 ->
+  in_interval accept A B D n e =
+  if accept then (A * 10 ^ (- K) <=? n * 10 ^ (e - K) * D) && (n * 10 ^ (e - K) * D <=? B * 10 ^ (- K))
+  else (A * 10 ^ (- K) <? n * 10 ^ (e - K) * D) && (n * 10 ^ (e - K) * D <? B * 10 ^ (- K)).
+Proof.
+  intros accept A B D n e K HD HK HK0. unfold in_interval.
+  assert (forall a b t, 0 < t -> (a * t <=? b * t) = (a <=? b)) as Lle.
+  { intros a b t Ht. destruct (Z.leb_spec a b), (Z.leb_spec (a * t) (b * t)); try reflexivity; nia. }
+  assert (forall a b t, 0 < t -> (a * t <? b * t) = (a <? b)) as Llt.
+  { intros a b t Ht. destruct (Z.ltb_spec a b), (Z.ltb_spec (a * t) (b * t)); try reflexivity; nia. }
+  destruct (Z.leb_spec 0 e) as [He | He].
+  - assert (0 < 10 ^ (- K)) as HP by (apply pow10_pos; lia).
+    replace (e - K) with (e + - K) by lia. rewrite pow10_split by lia. rewrite !Z.mul_1_r.
+    replace (n * (10 ^ e * 10 ^ (- K)) * D) with (n * 10 ^ e * D * 10 ^ (- K)) by ring.
+    destruct accept; rewrite ?Lle, ?Llt by assumption; reflexivity.
+  - assert (0 < 10 ^ (e - K)) as HP by (apply pow10_pos; lia).
+    replace (- K) with (- e + (e - K)) by lia. rewrite pow10_split by lia.
+    replace (A * (10 ^ (- e) * 10 ^ (e - K))) with (A * 10 ^ (- e) * 10 ^ (e - K)) by ring.
+    replace (B * (10 ^ (- e) * 10 ^ (e - K))) with (B * 10 ^ (- e) * 10 ^ (e - K)) by ring.
+    replace (n * 10 ^ (e - K) * D) with (n * D * 10 ^ (e - K)) by ring.
+    destruct accept; rewrite ?Lle, ?Llt by assumption; reflexivity.
+Qed.
+
+Lemma in_interval_same_val : forall accept A B D n1 e1 n2 e2, 0 < D -> same_val n1 e1 n2 e2 ->
+  in_interval accept A B D n1 e1 = in_interval accept A B D n2 e2.
+Proof.
+  intros accept A B D n1 e1 n2 e2 HD Hsv. unfold same_val in Hsv.
+  set (K := Z.min (Z.min e1 e2) 0).
+  rewrite (in_interval_norm accept A B D n1 e1 K), (in_interval_norm accept A B D n2 e2 K) by (unfold K; lia).
+  assert (n1 * 10 ^ (e1 - K) = n2 * 10 ^ (e2 - K)) as ->; [|reflexivity].
+  replace (e1 - K) with ((e1 - Z.min e1 e2) + (Z.min e1 e2 - K)) by lia.
+  replace (e2 - K) with ((e2 - Z.min e1 e2) + (Z.min e1 e2 - K)) by lia.
+  rewrite !pow10_split by (unfold K; lia). rewrite !Z.mul_assoc, Hsv. reflexivity.
 Qed.
 
 (* ------------------------------------------------------------------ the decimal-layout half of the round trip *)
@@ -146,7 +193,8 @@ Theorem shortest_roundtrip_partial : forall bits prec s m2 e2 c k g,
   0 <= prec -> - g <= prec -> decimalLength17 k - 1 <= prec ->
   exists N E,
     parse_number (print_trimmed bits prec) = Some (NVdec s N E) /\ (dval N E == dval k g)%Q /\
-    let '(A, C, B, D) := interval m2 e2 c in in_interval (Z.even m2) A B D k g = true.
+    (let '(A, C, B, D) := interval m2 e2 c in in_interval (Z.even m2) A B D N E = true) /\
+    0 < N /\ Z.min g 0 <= E <= Z.max (g + 16) 0.
 Proof.
   intros bits prec s m2 e2 c k g Hd Hsh Hk Hg Hp Hfix Hexp.
   pose proof (decode_range _ _ _ _ _ Hd) as [Hm _].
@@ -154,15 +202,27 @@ Proof.
   assert (forall N E (sg : bool), (dval N E == dval k g)%Q -> sg && negb (N =? 0) = sg) as Hsign.
   { intros N E sg EQ. destruct (Z.eqb_spec N 0) as [-> | Nz]; [|destruct sg; reflexivity].
     exfalso. rewrite dval_zero in EQ. pose proof (dval_pos k g ltac:(lia)) as P. rewrite <- EQ in P. discriminate P. }
+  assert (forall N E, 0 <= N -> (dval N E == dval k g)%Q -> 0 < N) as Hnz.
+  { intros N E HN0 EQ. destruct (Z.eq_dec N 0) as [-> | Nz]; [|lia].
+    exfalso. rewrite dval_zero in EQ. pose proof (dval_pos k g ltac:(lia)) as P. rewrite <- EQ in P. discriminate P. }
   unfold print_trimmed. rewrite Hd. cbn [shortest_of]. rewrite Hsh. unfold print_trimmed_sd.
   destruct (dy_leb c1e17_m 0 m2 e2 || dy_ltb m2 e2 c1e_4_m c1e_4_e).
   - cbn [d2sexp_sd fst snd].
-    destruct (exp_layout_value k g s prec Hk Hp Hg) as (N & E & P1 & _ & P3 & _).
-    exists N, E. rewrite P1. specialize (P3 Hexp). rewrite (Hsign N E s P3). split; [reflexivity|]. split; [exact P3 | exact Hin].
+    destruct (exp_layout_value k g s prec Hk Hp Hg) as (N & E & P1 & P2 & P3 & _ & P5 & P6).
+    exists N, E. rewrite P1. specialize (P3 Hexp). specialize (P6 Hexp). rewrite (Hsign N E s P3). split; [reflexivity|]. split; [exact P3|].
+    pose proof (decimalLength17_declen k ltac:(lia)) as Hol. pose proof (declen_17 k ltac:(lia)) as H17.
+    split; [|split; [apply Hnz with E; assumption | lia]].
+    revert Hin. destruct (interval m2 e2 c) as [[[A C] B] D] eqn:EI. intros Hin.
+    pose proof (interval_facts m2 e2 c ltac:(lia)) as HF. rewrite EI in HF.
+    rewrite (in_interval_same_val _ A B D N E k g) by (try apply HF; exact P6). exact Hin.
   - cbn [d2sfixed_sd fst snd].
     set (p' := if (prec <? 4) && dy_ltb m2 e2 1 0 then Z.max prec (neg_floor_log10 m2 e2) else prec).
     assert (prec <= p') by (unfold p'; destruct ((prec <? 4) && dy_ltb m2 e2 1 0); lia).
-    destruct (fixed_layout_value k g s p' Hk ltac:(lia)) as (N & E & P1 & _ & P3 & _).
-    exists N, E. rewrite P1. assert (dval N E == dval k g)%Q as EQ by (apply P3; lia).
-    rewrite (Hsign N E s EQ). split; [reflexivity|]. split; [exact EQ | exact Hin].
+    destruct (fixed_layout_value k g s p' Hk ltac:(lia)) as (N & E & P1 & P2 & P3 & _ & _ & P5 & P6).
+    exists N, E. rewrite P1. assert (dval N E == dval k g)%Q as EQ by (apply P3; lia). specialize (P6 ltac:(lia)).
+    rewrite (Hsign N E s EQ). split; [reflexivity|]. split; [exact EQ|].
+    split; [|split; [apply Hnz with E; assumption | lia]].
+    revert Hin. destruct (interval m2 e2 c) as [[[A C] B] D] eqn:EI. intros Hin.
+    pose proof (interval_facts m2 e2 c ltac:(lia)) as HF. rewrite EI in HF.
+    rewrite (in_interval_same_val _ A B D N E k g) by (try apply HF; exact P6). exact Hin.
 Qed.
